@@ -143,7 +143,12 @@ namespace sim
 		else out_request.append(req.req, path_start, std::string::npos);
 		out_request += " HTTP/1.1\r\n";
 
-		std::string::size_type const host_end = req.req.substr(0, path_start).find_last_of(':');
+		std::string::size_type host_end = req.req.substr(0, path_start).find_last_of(':');
+
+		// the colons inside a bracketed IPv6 address don't separate the port
+		std::string::size_type const bracket = req.req.substr(0, path_start).find_last_of(']');
+		if (bracket != std::string::npos && host_end != std::string::npos && host_end < bracket)
+			host_end = std::string::npos;
 
 		std::string host = req.req.substr(7, (host_end != std::string::npos && host_end > 7)
 			? host_end - 7 : path_start - 7);
